@@ -72,7 +72,7 @@ def guess_near(rng, v, rel):
     return v * (1 + rel * complex(rng.uniform(-1, 1), rng.uniform(-1, 1)))
 
 
-def build(rng, kind, typ, nf, form, ptol=None, etol=None, limit=None, bad=False, merr=False):
+def build(rng, kind, typ, nf, form, ptol=None, etol=None, limit=None, bad=False, merr=False, et_first=False):
     n = 1 if kind in ('extra1', 'repeat', 'repeatv', 'spread') else 2
     if typ in ('T16', 'U16'):
         return None
@@ -170,10 +170,12 @@ def build(rng, kind, typ, nf, form, ptol=None, etol=None, limit=None, bad=False,
         # the measurement-error model on (noise floor and a signal-proportional part): exact data must still be solved to the same values
         sc.lines.append('cal new_set_m_error %d 1 N S %s T %s' % (sc.n, vlib.d2h(1e-6), vlib.d2h(1e-3)))
     sc.merr = merr
+    tl = []
     if ptol is not None:
-        sc.lines.append('cal new_set_p_tolerance %d %s' % (sc.n, vlib.d2h(ptol)))
+        tl.append('cal new_set_p_tolerance %d %s' % (sc.n, vlib.d2h(ptol)))
     if etol is not None:
-        sc.lines.append('cal new_set_et_tolerance %d %s' % (sc.n, vlib.d2h(etol)))
+        tl.append('cal new_set_et_tolerance %d %s' % (sc.n, vlib.d2h(etol)))
+    sc.lines += tl[::-1] if et_first else tl
     if limit is not None:
         sc.lines.append('cal new_set_iteration_limit %d %d' % (sc.n, limit))
     sc.solve()
@@ -379,6 +381,30 @@ def tolerances_and_limits(chk, exe, rng, broken, reps):
                     chk.violation('tolerance-monotone', '%s %s: tightening the tolerances from %.0e to %.0e made the result worse: %.3e -> %.3e' % (kind, typ, t1, t2, max(e1), max(e2)), sc2.lines[:sc2.i_apply + 1])
                     return
             chk.count('tolerance_ladder_ok')
+            # the two tolerances are two settings: a tight parameter tolerance holds whatever the error-term tolerance is and in whichever
+            # order the two calls are made
+            loose = rng.choice([1e-1, 1e-2, 1e-3])
+            two = []
+            for et_first in (False, True):
+                sc = build(random.Random(seed), kind, typ, 1, 'm', ptol=1e-10, etol=loose, et_first=et_first)
+                o, rc, err = vlib.run_lines(exe, sc.lines, timeout=120)
+                chk.evaluations += 1
+                if rc != 0 or len(o) != len(sc.lines):
+                    chk.violation('tolerance-crash', '%s %s with tolerances 1e-10 / %.0e: crash or no return:\n%s' % (kind, typ, loose, err[-800:]), sc.lines)
+                    return
+                e = errors(sc, o)
+                order = 'error-term tolerance %.0e first, parameter tolerance 1e-10 second' % loose if et_first else 'parameter tolerance 1e-10 first, error-term tolerance %.0e second' % loose
+                if e is None:
+                    chk.violation('tolerance-order-fail', '%s %s: solve fails with %s although it succeeds with both at 1e-10' % (kind, typ, order), sc.lines[:sc.i_solve + 1])
+                    return
+                if max(e) > 300 * 1e-10 + 1e-9:
+                    chk.violation('tolerance-order', '%s %s: %s: the result is off by %.3e / %.3e (with both at 1e-10: %.3e)' % (kind, typ, order, e[0], e[1], max(errs[-1][1])), sc.lines[:sc.i_apply + 1])
+                    return
+                two.append([o[i] for idx in sc.i_vals.values() for i in idx] + [o[sc.i_apply]])
+            if two[0] != two[1]:
+                chk.violation('tolerance-commute', '%s %s: setting the two tolerances (1e-10, %.0e) in the other order changes the result' % (kind, typ, loose), sc.lines[:sc.i_apply + 1])
+                return
+            chk.count('tolerance_order_ok')
             # iteration limit: least limit that succeeds; same bits above it; EDOM below it  (model: Iter.loop)
             res = []
             for lim in list(range(1, 12)) + [20, 30]:
